@@ -298,6 +298,40 @@ check("executemany items", len([it for it in items if it[0] == "many"]), 4 * 2 *
 check("paramstyle items", len([it for it in items if it[0] == "pstyle"]), 3 * 3 * 2)
 check("quick items are a subset shape", {it[:2] for it in c08.items_for("quick")} <= {it[:2] for it in items}, True)
 
+# ---- 11. histories: which values are "the same datum", "confusable" (equal for Python, different data), "distinct" ------
+tz_utc = datetime.datetime(2024, 1, 1, 12, 0, 0, tzinfo=datetime.timezone.utc)
+tz_p5 = datetime.datetime(2024, 1, 1, 17, 0, 0, tzinfo=datetime.timezone(datetime.timedelta(hours=5)))
+REL = [
+    (1, 1, "same"), (1, True, "confusable"), (True, 1, "confusable"), (1, 1.0, "confusable"), (1, D("1"), "confusable"),
+    (D("1"), D("1.0"), "confusable"), (D("1.1"), D("1.10"), "confusable"), (D("1.1"), 1.1, "distinct"), (1, "1", "distinct"),
+    (0, False, "confusable"), (0.0, -0.0, "confusable"), (0, "", "distinct"), (False, "", "distinct"), (None, None, "same"),
+    (None, 0, "distinct"), (tz_utc, tz_p5, "confusable"), (tz_utc, tz_utc, "same"),
+    (tz_utc, datetime.datetime(2024, 1, 1, 12, 0, 0), "distinct"), (datetime.date(2024, 1, 1), datetime.datetime(2024, 1, 1), "distinct"),
+    (2**63, float(2**63), "confusable"), ((1, 2), (True, 2.0), "confusable"), ((1, 2), (1, 2), "same"), ("a", "a'", "distinct"),
+    (1, 2, "distinct"), (2, 2.0, "confusable"),
+]  # fmt: skip
+for a, b, want in REL:
+    check(f"relation({a!r}, {b!r})", c08.relation(a, b), want)
+check("tclass", [c08.tclass(v) for v in (True, 1, 1.0, D("1"), "1", None, tz_utc, datetime.datetime(2024, 1, 1), datetime.date(2024, 1, 1), datetime.time(1), (1, 2))],
+      ["bool", "int", "float", "dec", "str", "null", "tstz", "ts", "date", "time", "tuple"])  # fmt: skip
+check("seq_class", c08.seq_class("same_cursor", "insv", "format_seq", 1, True), "hist=same_cursor,pos=insv,bind=client,first=int,second=bool,rel=confusable")  # fmt: skip
+names = [n for n, _ in c08.SEQ]
+check("SEQ names unique", len(names), len(set(names)))
+check("SEQ_QUICK and SEQ3 are drawn from SEQ", set(c08.SEQ_QUICK) <= set(names) and set(c08.SEQ3) <= set(c08.SEQ_QUICK), True)
+# every group of Python-equal values the property's type list can produce is present in the quick alphabet
+byname = dict(c08.SEQ)
+for group in (["i1", "true", "f1", "d1", "d1.0"], ["i0", "false", "f0", "d0"], ["d1.1", "d1.10"], ["tz_utc", "tz+5"], ["t12", "ttrue2"]):
+    for x in group:
+        for y in group:
+            if x != y:
+                check(f"confusable {x}/{y}", (c08.relation(byname[x], byname[y]), x in c08.SEQ_QUICK), ("confusable", True))
+check("qmark histories exclude sequences", [c08.SEQ[i][0] for i in c08.seq_indexes("thorough", "qmark") if isinstance(c08.SEQ[i][1], tuple)], [])  # fmt: skip
+check("history alphabet sizes", (len(c08.seq_indexes("quick", "pyformat_seq")), len(c08.seq_indexes("quick", "qmark")), len(c08.seq_indexes("thorough", "format_seq")), len(c08.seq_indexes("thorough", "qmark"))), (23, 21, 35, 33))  # fmt: skip
+b = c08.Binder("pyformat_dict")
+check("history statement", (c08.SEQ_POS["selv"](b.ph(1)), b.params()), ("select cast(%(v)s as varchar) as v", {"v": 1}))
+check("_stored ok", c08._stored({"insv": (("ok", [(1,)]), [(1, "true")])}), ("true",))
+check("_stored failed insert", c08._stored({"insv": (("err", "E", "m"), [])}), None)
+
 if FAILS:
     print(f"test_c08: {len(FAILS)} of {N[0]} checks FAILED")
     for f in FAILS[:40]:
